@@ -37,8 +37,9 @@ META = dict(
     level_note='Trusted: lxml/libxml2 as XML and DTD judge; '
                'tests/dtd/DSP0203_2.3.1.dtd as the CIM-XML grammar; the '
                'repository TupleParser only to read the target path out of the '
-               'body for the header comparison. Listener responses are judged '
-               'with the same oracle inside C17.',
+               'body for the header comparison. Listener responses: a slice '
+               'here (live listener per worker, strict response grammar + '
+               'DTD), the full request space in C17.',
     design_ref='DESIGN.md section 3, C03',
     rule='case = one operation call (op x argument shapes x hostile content) '
          'or one tocimxmlstr() call; non-trivial if a request with >= 1 '
@@ -49,6 +50,7 @@ META = dict(
                  'by the statement'],
     min_eval=1000, min_distinct=300,
     required_events=['requests-seen', 'dtd-validated', 'tocimxmlstr',
+                     'listener-responses',
                      'header-checked', 'WBEMConnection._imethodcall',
                      'WBEMConnection._methodcall'],
 )
@@ -81,6 +83,12 @@ def finish_worker(ctx):
     ctx.state['inv'].flush(ctx)
     ctx.state['reach'].stop()
     ctx.state['inv'].stop()
+    lis = ctx.state.get('listener')
+    if lis is not None:
+        try:
+            lis.stop()
+        except Exception:  # pylint: disable=broad-except
+            pass
 
 
 CANNED = xmlserver.error_response('X', 1, 'vf canned answer')
@@ -488,8 +496,93 @@ def case_tocimxmlstr(ctx, rng):
         ctx.nontrivial(h64(s))
 
 
+# ---------------------------------------------------------------- listener --
+
+def listener_of(ctx):
+    """One live WBEMListener per worker on a private loopback port."""
+    st = ctx.state
+    if 'listener' in st:
+        return st['listener'], st['lport']
+    from vf import listenerkit as lk
+    lk.quiet_logging()
+    st['ports'] = lk.Ports()
+    lis = None
+    for _ in range(4):
+        port = st['ports'].get()
+        lis = pywbem.WBEMListener(lk.HOST, http_port=port)
+        lis.queue_get_timeout = 0.05
+        lis.add_callback(lambda indication, host: None)
+        try:
+            lis.start()
+            break
+        except pywbem.ListenerPortError:
+            lis = None
+    st['listener'], st['lport'] = lis, (port if lis else None)
+    return st['listener'], st['lport']
+
+
+def case_listener(ctx, rng):
+    """Every response the listener emits: strict HTTP response grammar
+    (Content-Length equals the body bytes, nothing after it) and, for 200,
+    a well-formed DTD-valid export response."""
+    from vf import listenerkit as lk
+    lis, port = listener_of(ctx)
+    if lis is None:
+        ctx.outcome('listener-not-started')
+        return
+    hostile = [cimgen.string(rng), 'M\xe4thod', '\u4e2d\u6587', 'a b', '1000',
+               'x' * 200, '\u20ac' * 7, 'ExportIndication', 'a&b<c>"d\'',
+               cimgen.name(rng, nonascii=0.5)]
+    kind = rng.choice(['valid', 'valid', 'unknown-method', 'msgid', 'bad-xml',
+                       'bad-version', 'bad-header', 'no-param', 'get'])
+    msgid = rng.choice(['1000', rng.choice(hostile)])
+    method = 'ExportIndication'
+    headers = None
+    try:
+        inst = cimgen.instance(rng, with_path=False, emb_depth=1)
+        node = inst.tocimxml()
+        if kind == 'unknown-method':
+            method = rng.choice(hostile[:-3] + ['Export', 'exportindication'])
+        if kind == 'msgid':
+            msgid = rng.choice(hostile)
+        body = lk.export_xml(None if kind == 'no-param' else node,
+                             msgid=msgid, method=method,
+                             dtdver='9.9' if kind == 'bad-version' else '2.4')
+    except (TypeError, ValueError):
+        ctx.outcome('listener-request-not-constructible')
+        return
+    if kind == 'bad-xml':
+        body = body[:rng.randint(1, len(body) - 1)]
+    if kind == 'bad-header':
+        headers = [(k, (b'text/html' if k == b'Content-Type' else v))
+                   for k, v in lk.GOOD_HEADERS]
+    raw = lk.http_request(body, method=b'GET' if kind == 'get' else b'POST',
+                          headers=headers)
+    ctx.evaluated()
+    ctx.cls('listener/' + kind)
+    ex = lk.send_raw(port, raw, timeout=15.0)
+    ctx.count('listener-responses')
+    detail = {'kind': kind, 'msgid': msgid, 'method': method,
+              'response': short(ex.raw.decode('latin-1'), 1200)}
+    if not ex.raw:
+        ctx.violation('listener.no-response', 'the listener closed the '
+                      'connection without a response (%s)' % kind, detail)
+        return
+    resp = lk.parse_response(ex.raw, head_request=False)
+    for key, text in resp.problems[:3]:
+        ctx.violation('listener.' + key, 'listener response to a %s request: '
+                      '%s' % (kind, text), detail)
+    if resp.status == 200 and not resp.problems:
+        judge_document(ctx, resp.body, 'listener-response', detail)
+    ctx.outcome('listener-status-%s' % resp.status)
+    ctx.nontrivial(h64((kind, ex.raw)))
+
+
 def run_case(ctx, i, rng):
-    if rng.random() < 0.75:
+    r = rng.random()
+    if r < 0.04:
+        case_listener(ctx, rng)
+    elif r < 0.76:
         case_operation(ctx, rng)
     else:
         case_tocimxmlstr(ctx, rng)
